@@ -2,7 +2,7 @@
 import json, os, time
 
 ROOT = os.path.dirname(os.path.dirname(os.path.abspath(__file__)))
-EVID = os.path.join(ROOT, "evidence")
+EVID = os.environ.get("VERIF_EVIDENCE_DIR") or os.path.join(ROOT, "evidence")     # the self-tests redirect it
 REPLAY = os.path.join(EVID, "replay")
 
 
